@@ -192,10 +192,37 @@ def write(tabs, traces=None, path=None):
     return names, info, traces
 
 
+def write_obligations(tabs, info, path=None):
+    """IRGen/WrapObl.lean: `c01OK P_x W_x = true` by kernel evaluation for every protocol of the wrapC01 fragment.
+    returns (theorem names, [(protocol, why it can no longer be stated)])"""
+    path = path or os.path.join(vlib.LEAN, 'IRGen', 'WrapObl.lean')
+    frag = json.load(open(os.path.join(vlib.VERIF, 'tools', 'fragment.json')))
+    lines = ['import IRGen.Tables', 'import IRGen.Wrap', 'import IRModel.Props.Wrapper',
+             '/-! GENERATED by tools/wrapgen.py on every run: wrapper obligations of the parameter-level C01 theorem. -/',
+             'namespace IRGen.WrapObl', 'open IRModel IRModel.Wrap', '']
+    names, missing = [], []
+    for n in frag.get('wrapC01', []):
+        inf = info.get(n)
+        if not inf or not inf.get('emitted'):
+            missing.append((n, 'no wrapper could be generated: encode: %s; decode: %s' % ((inf or {}).get('encode'), (inf or {}).get('decode'))))
+            continue
+        ident = extract.lean_ident(n)[2:]
+        thm = 'c01w_%s' % ident
+        names.append('IRGen.WrapObl.' + thm)
+        lines.append('theorem %s : c01OK IRGen.P_%s IRGen.W_%s = true := by decide +kernel' % (thm, ident, ident))
+    lines.append('end IRGen.WrapObl')
+    src = '\n'.join(lines) + '\n'
+    old = open(path).read() if os.path.exists(path) else None
+    if old != src:
+        open(path, 'w').write(src)
+    return names, missing
+
+
 if __name__ == '__main__':
     tabs = extract.tables()
     extract.write_lean(tabs)
     names, info, _ = write(tabs)
+    print(write_obligations(tabs, info)[1])
     import collections
     print(len(names), collections.Counter((v['encode'] == 'traced', v['decode'] in ('traced', 'not overridden')) for v in info.values()))
     os._exit(0)
